@@ -7,8 +7,9 @@ import sqlite3
 from harness.core import enc_str, dec_str
 
 PROPERTY = "C15"
-READY = False
-THEOREMS = []
+READY = True
+THEOREMS = ["C15.clauses_ok", "C15.consts_ok", "C15.only_rejections", "C15.selects_eval", "C15.selects",
+            "C15.placeholders", "C15.values_only_bound", "C15.noninterference", "C15.none_ignored"]
 
 
 # ------------------------------------------------------------------ translator
@@ -701,54 +702,72 @@ def _selected(s):
     return [r[s["cols"][0]] for r in out]
 
 
-def _leaf_values(op, a):
-    """the values a condition contributes to the bound parameters, in order (None: a set, any order)"""
+def _leaf_bindings(f, op, a):
+    """(field, SQL operator, value) for every value the condition has to bind, in the caller's order"""
     op = op.upper()
     if op in ("IS NULL", "IS NOT NULL") or (op in ("=", "!=") and a[0] == "S" and a[1] is None):
         return []
     if a[0] == "S":
-        return [("v", a[1])]
-    if a[0] == "L":
-        return [("v", x) for x in a[1]]
-    return [("set", list(a[1]))] if a[1] else []
+        return [(f, op, a[1])]
+    if op in ("=", "!="):
+        op = "IN" if op == "=" else "NOT IN"
+    return [(f, op, x) for x in a[1]]
 
 
-def _cond_values(c):
+def _cond_bindings(c):
     if c[0] == "T":
-        return _leaf_values(c[2], c[3])
+        return _leaf_bindings(c[1], c[2], c[3])
     if c[0] == "P":
-        return _leaf_values("=", c[2])
+        return _leaf_bindings(c[1], "=", c[2])
     out = []
     for x in c[1]:
-        out += _cond_values(x)
-    for k, a in sorted(c[2], key=lambda ka: ka[0]):
-        out += _leaf_values("=", a)
+        out += _cond_bindings(x)
+    for k, a in c[2]:
+        out += _leaf_bindings(k, "=", a)
     return out
 
 
-def _expected_params(call):
+def _call_bindings(call):
     out = []
     for c in call["args"]:
         if c is not None:
-            out += _cond_values(c)
-    for k, a in sorted(call["kw"], key=lambda ka: ka[0]):
-        out += _leaf_values("=", a)
+            out += _cond_bindings(c)
+    for k, a in call["kw"]:
+        out += _leaf_bindings(k, "=", a)
     return out
 
 
-def _params_match(expected, got):
-    i = 0
-    for kind, v in expected:
-        if kind == "v":
-            if i >= len(got) or type(got[i]) is not type(v) or got[i] != v:
-                return False
-            i += 1
-        else:
-            seg = got[i:i + len(v)]
-            if sorted(map(repr, seg)) != sorted(map(repr, v)):
-                return False
-            i += len(v)
-    return i == len(got)
+def _same_values(bindings, params):
+    """the bound values are exactly the caller's values (as a multiset; the order is checked by _aligned)"""
+    def key(v):
+        return (type(v).__name__, repr(v))
+    return sorted(key(v) for _, _, v in bindings) == sorted(key(v) for v in params)
+
+
+def _aligned(sql, ph, bindings, params):
+    """Reads the text: the k-th placeholder stands behind some `field operator`; the k-th bound value must be a
+    value the caller gave for that field with that operator. `bindings` carry unique marker values."""
+    fields = set(f for f, _, _ in bindings)
+    where = {}
+    for f, op, v in bindings:                       # markers are unique, None (kept as None) may repeat
+        where.setdefault((type(v).__name__, v), set()).add((f, op))
+    toks = sql.replace("(", " ").replace(")", " ").replace(",", " ").split()
+    cur_f, cur_op, seen_ph, slots = None, [], False, []
+    for t in toks:
+        if t in fields:
+            cur_f, cur_op, seen_ph = t, [], False
+        elif t == ph:
+            slots.append((cur_f, " ".join(cur_op)))
+            seen_ph = True
+        elif not seen_ph:
+            cur_op.append(t)
+    if len(slots) != len(params):
+        return "%d placeholder(s) read in the text, %d value(s) bound" % (len(slots), len(params))
+    for k, (slot, v) in enumerate(zip(slots, params)):
+        if slot not in where.get((type(v).__name__, v), ()):
+            return "placeholder %d stands behind %r but is bound to the value given for %r" % (
+                k + 1, slot, where.get((type(v).__name__, v)))
+    return None
 
 
 def _mark_call(call):
@@ -790,8 +809,8 @@ def _oracle_line(cmd, s, rep):
         if sql.count(ph) - fixed.count(ph) != len(params):
             return "placeholders: %d placeholder(s) for %d bound value(s) in %r; %s" % (
                 sql.count(ph) - fixed.count(ph), len(params), sql, desc)
-        if not _params_match(_expected_params(s["call"]), params):
-            return "params: bound values %r are not the caller's values in order; %s" % (params, desc)
+        if not _same_values(_call_bindings(s["call"]), params):
+            return "params: bound values %r are not the caller's values; %s" % (params, desc)
         s2 = dict(s, call=_mark_call(s["call"]))
         try:
             _, log2 = _execute(s2)
@@ -802,8 +821,12 @@ def _oracle_line(cmd, s, rep):
             return "text-depends-on-values: %r became %r when only the values changed; %s" % (sql, sql2, desc)
         if "mk" in sql2.replace(s["from"], "") or "77000" in sql2.replace(s["from"], ""):
             return "value-in-text: a condition value appears in the SQL text %r" % sql2
-        if not _params_match(_expected_params(s2["call"]), params2):
-            return "params: bound values %r are not the caller's values in order; %s" % (params2, desc)
+        b2 = _call_bindings(s2["call"])
+        if not _same_values(b2, params2):
+            return "params: bound values %r are not the caller's values; %s" % (params2, desc)
+        msg = _aligned(sql2, ph, b2, params2)
+        if msg is not None:
+            return "order: %s in %r; %s" % (msg, sql2, desc)
         return None
     # ids
     want = _selected(s)
@@ -852,10 +875,18 @@ def _case_op(rng, op):
     return "".join(c.lower() if rng.random() < 0.5 else c for c in op)
 
 
+_CTX = {"pool": None}        # cells of the scenario's table, by column letter (conditions that hit rows)
+
+
 def _g_value(rng, field, allow_none=True):
     r = rng.random()
     if allow_none and r < 0.12:
         return None
+    pool = (_CTX["pool"] or {}).get(field[-1])
+    if pool and rng.random() < 0.55:
+        v = rng.choice(pool)
+        if v is not None:
+            return v
     pool_first = _INTS if field.endswith("a") else _TEXTS
     pool_other = _TEXTS if field.endswith("a") else _INTS
     return rng.choice(pool_first if rng.random() < 0.8 else pool_other)
@@ -966,7 +997,7 @@ def _insert_somewhere(rng, args, leaf):
 
 def _g_rows(rng, nmax):
     rows = []
-    for i in range(rng.randint(0, nmax)):
+    for i in range(rng.choice([0, 1, 2] + list(range(3, nmax + 1)) * 2)):
         rid = i + 1 if rng.random() < 0.8 else i + 1 + 10 * rng.randrange(3)
         rows.append([rid + 100 * 0, _g_value(rng, "a"), _g_value(rng, "b"), _g_value(rng, "c")])
     ids = sorted(set(r[0] for r in rows))
@@ -992,9 +1023,11 @@ def _g_scenario(rng, tier, malformed):
     pfx, frm = rng.choice(_FROMS)
     if pfx == "main.t.":
         pfx, frm = "", "SELECT id, a, b, c FROM t"
-    ncond = rng.choice([0, 1, 1, 2, 2, 3] + ([4, 5] if big else []))
+    rows = _g_rows(rng, 8 if big else 6)
+    _CTX["pool"] = {c: [r[i + 1] for r in rows] for i, c in enumerate("abc")}
+    ncond = rng.choice([0, 1, 1, 1, 2, 2, 3] + ([4, 5] if big else []))
     args = [_g_cond(rng, pfx) for _ in range(ncond)]
-    kw = _g_kw(rng, pfx, rng.choice([0, 0, 1, 1, 2, 3]))
+    kw = _g_kw(rng, pfx, rng.choice([0, 0, 0, 1, 1, 2, 3]))
     if malformed:
         r = rng.random()
         if r < 0.45 or r > 0.8:
@@ -1007,8 +1040,7 @@ def _g_scenario(rng, tier, malformed):
     for _ in range(rng.choice([0, 0, 0, 1, 2])):
         args.insert(rng.randint(0, len(args)), None)
     return {"v": rng.randrange(1024), "pct": 0, "from": frm, "group": None, "order": _g_order(rng, pfx),
-            "call": {"args": args, "kw": kw}, "cols": [pfx + c for c in _BASE_COLS],
-            "rows": _g_rows(rng, 8 if big else 6)}
+            "call": {"args": args, "kw": kw}, "cols": [pfx + c for c in _BASE_COLS], "rows": rows}
 
 
 def _lines_of(s, rng=None):
